@@ -565,6 +565,24 @@ theorem multilabelAccuracyUpdate_eq (thr : Q) (crit : Crit) (inp tgt : List (Lis
       = multilabelUpdate crit (inp.map fun r => r.map fun x => ((binPred thr x : Nat) : Q)) tgt := by
   simp only [multilabelAccuracyUpdate, thresh_eq_binPred]
 
+/-- the rows fed to `_multilabel_update` by the thresholded and the top-k variants
+    are 0/1 rows, so the 0/1 hypotheses above only constrain the targets. -/
+theorem thresh_row_zero_one (thr : Q) (r : List Q) :
+    ∀ x ∈ r.map (fun x => ((thresh thr x : Nat) : Q)), x = 0 ∨ x = 1 := by
+  intro x hx
+  obtain ⟨a, _, rfl⟩ := List.mem_map.mp hx
+  unfold thresh; split
+  · left; rfl
+  · right; rfl
+
+theorem topkIndicator_zero_one (r : List Q) (k : Nat) :
+    ∀ x ∈ topkIndicator r k, x = 0 ∨ x = 1 := by
+  intro x hx
+  obtain ⟨a, _, rfl⟩ := List.mem_map.mp hx
+  unfold b2q; split
+  · right; rfl
+  · left; rfl
+
 example : mlRowCorrect .contain [1, 1, 0] [1, 0, 0] = 1 := by
   rw [mlRowCorrect_contain _ _ (by simp)]; simp
 example : mlRowCorrect .belong [1, 1, 0] [1, 0, 0] = 0 := by
